@@ -554,6 +554,33 @@ func sortKeySource(info *types.Info, fd *ast.FuncDecl, call *ast.CallExpr, lit *
 	if kobj == nil {
 		kobj = info.Uses[kid]
 	}
+	// single-assignment locals of the loop body
+	loopLocals = map[types.Object]ast.Expr{}
+	cnt := map[types.Object]int{}
+	ast.Inspect(rng.Body, func(n ast.Node) bool {
+		as, ok := n.(*ast.AssignStmt)
+		if !ok || len(as.Lhs) != len(as.Rhs) {
+			return true
+		}
+		for i, l := range as.Lhs {
+			if id, ok := l.(*ast.Ident); ok {
+				o := info.Defs[id]
+				if o == nil {
+					o = info.Uses[id]
+				}
+				if o != nil {
+					cnt[o]++
+					loopLocals[o] = as.Rhs[i]
+				}
+			}
+		}
+		return true
+	})
+	for o, n := range cnt {
+		if n > 1 {
+			delete(loopLocals, o)
+		}
+	}
 	// resolve the element's field F
 	val, subst := fieldValueOf(info, fd, rng, elem, field)
 	if val == nil {
@@ -668,6 +695,9 @@ func fieldValueOf(info *types.Info, fd *ast.FuncDecl, rng *ast.RangeStmt, elem a
 	return nil, nil
 }
 
+// loopLocals: single-assignment locals of the range body being examined (set by sortKeySource).
+var loopLocals = map[types.Object]ast.Expr{}
+
 // injectiveIn: e is the key, a parameter bound to the key, a string conversion, concatenation or fmt.Sprintf containing such.
 func injectiveIn(info *types.Info, e ast.Expr, key types.Object, subst map[types.Object]ast.Expr) bool {
 	switch e := ast.Unparen(e).(type) {
@@ -678,6 +708,13 @@ func injectiveIn(info *types.Info, e ast.Expr, key types.Object, subst map[types
 		}
 		if s, ok := subst[obj]; ok {
 			return injectiveIn(info, s, key, nil)
+		}
+		// a local of the loop body that is assigned once (`funcName := "Populate" + name + "Requires"`)
+		if d, ok := loopLocals[obj]; ok && d != nil {
+			delete(loopLocals, obj) // no cycles
+			r := injectiveIn(info, d, key, subst)
+			loopLocals[obj] = d
+			return r
 		}
 	case *ast.BinaryExpr:
 		if e.Op == token.ADD {
